@@ -13,7 +13,7 @@
    Cells/constants are integers (floats are scaled dyadics, timestamps their integer value, booleans
    0/1) or str (lexicographic order of the text, what Python's str comparison is).                    *)
 From Coq Require Import ZArith List String Bool.
-From Pq Require Import Base.PyVal Impl.Filter Impl.FilterLeaf Proofs.PyValProofs Proofs.FilterProofs Proofs.FilterLeafProofs.
+From Pq Require Import Base.PyVal Impl.Filter Impl.FilterLeaf Proofs.PyValProofs Proofs.FilterProofs Proofs.FilterLeafProofs Proofs.FilterBoundsProofs.
 Import ListNotations.
 Open Scope string_scope.
 Open Scope Z_scope.
@@ -56,6 +56,34 @@ Theorem C05_read_sound :
     (forall r, In r (flat_map rg_rows rgs) -> sat_dnf R cell r (normalize f) = true -> In r rows).
 Proof. intros R cell conv. exact (read_sound R cell filter_val conv all_ops leaf_all_sound). Qed.
 Print Assumptions C05_read_sound.
+
+(* soundness needs VALID bounds only (below / above every non-null cell of the chunk), not the exact ones of C04:
+   any such bounds - absent, scalar or length-1 array - never make the leaf skip a chunk holding a satisfying cell *)
+Theorem C05_any_valid_bounds_sound :
+  (forall op c vmin vmax cells, In op ops -> const_ok_int op c -> bounds_cover_int vmin vmax cells ->
+     ok_true (filter_val (PStr op) c vmin vmax) = true -> forall z, In z cells -> sat op (PInt z) c = false) /\
+  (forall op c vmin vmax cells, In op ops -> const_ok_str op c -> bounds_cover_str vmin vmax cells ->
+     ok_true (filter_val (PStr op) c vmin vmax) = true -> forall s, In s cells -> sat op (PStr s) c = false).
+Proof. exact (conj any_valid_bounds_sound_int any_valid_bounds_sound_str). Qed.
+Print Assumptions C05_any_valid_bounds_sound.
+
+(* widened or dropped bounds stay valid (a min cut to a prefix, a max rounded up, one-sided statistics) *)
+Theorem C05_widened_bounds_valid :
+  (forall m m' M M' cells, m' <= m -> M <= M' ->
+     bounds_cover_int (PInt m) (PInt M) cells -> bounds_cover_int (PInt m') (PInt M') cells) /\
+  (forall vmin vmax cells, bounds_cover_int vmin vmax cells ->
+     bounds_cover_int PNone vmax cells /\ bounds_cover_int vmin PNone cells /\ bounds_cover_int PNone PNone cells) /\
+  (forall vmin vmax cells, bounds_cover_str vmin vmax cells ->
+     bounds_cover_str PNone vmax cells /\ bounds_cover_str vmin PNone cells /\ bounds_cover_str PNone PNone cells).
+Proof. exact (conj widen_int (conj drop_bounds_int drop_bounds_str)). Qed.
+Print Assumptions C05_widened_bounds_valid.
+
+(* a max cut to a strict prefix of the stored max is not an upper bound: the chunk holding the value asked for is skipped *)
+Theorem C05_truncated_max_refuted :
+  exists c vmax s, s = "abz" /\ vmax = PStr "ab" /\ c = PStr "abz" /\
+    ok_true (filter_val (PStr "==") c (PStr "ab") vmax) = true /\ sat "==" (PStr s) c = true.
+Proof. exact truncated_max_refuted. Qed.
+Print Assumptions C05_truncated_max_refuted.
 
 (* a flat list means AND *)
 Theorem C05_flat_is_and : forall (R : Type) (cell : R -> string -> pv) (r : R) (l : list cond),
